@@ -78,3 +78,16 @@ Definition mismatches := mismatches_from 0.
 Definition model_seen (c : mcase) : list (list ditem) :=
   let st := final c in
   map (fun i => seen i st) (seq 0 (length (c_progs c))).
+
+(* ---------- the synchronous reader: driver histories replayed on Model/MuxReader.v ---------- *)
+From Shm Require Import Model.MuxReader.
+Definition res_code (s : rst) : nat :=
+  match rp s with RDone ROk => 1 | RDone REos => 2 | RDone RClosedErr => 3 | RDone RTimeout => 4 | _ => 0 end.
+Record rcase := { ra : list ract; rm : nat; rr : nat }.   (* rr: what the implementation's blocking read returned *)
+Fixpoint rmismatches_from (n : nat) (cs : list rcase) : list (nat * nat) :=
+  match cs with
+  | [] => []
+  | c :: r => let m := res_code (rrun (ra c) (rm c)) in
+              if Nat.eqb m (rr c) then rmismatches_from (S n) r else (n, m) :: rmismatches_from (S n) r
+  end.
+Definition rmismatches := rmismatches_from 0.
